@@ -47,7 +47,7 @@ _c('C07', 'Proved: every accepted enter() (instruction of any controller or defa
           'every vehicle charging or queueing at a station is at that station\'s location, every vehicle parked or charging at a base is at that base\'s location. '
           'and every travelling vehicle\'s planned route is a connected walk from its current place to the place of the entity it was sent to, so an exhausted route means the vehicle is at that entity '
           '(C07_routes_over_histories, C07_arrived; hypotheses: the router answers (a,b) with a walk from a to b - C13 / C07_haversine_router - and step length > 0; rests on C07_traverse_keeps_walk for every link table). '
-          'PARTIAL: for ServicingTrip the route\'s end is not tied to the request destination by the invariant (drop-off elsewhere is refused: per-transition theorem).',
+          'A vehicle serving a trip has a remaining route that ends at the destination of the request it carries, over all histories (an exhausted route means it is there; a drop-off elsewhere is refused).',
    'Coq proof: enter-guard theorem + state invariant by induction over operation histories (macro frame theorem); correspondence; monitor')
 _c('C09', 'Proved: transition yields a new state iff exit AND enter succeed, otherwise the whole Sim record is kept; a refused instruction is as if absent from the batch; the instruction taking part for a '
           'vehicle is the last pushed, the driver having the final word (stack model). transition_previous_to_next is regenerated from the source each run.',
